@@ -7,7 +7,7 @@ NOTE = ("holds only inside the bounds recorded per harness in the evidence file;
 TECH = "solver-based bounded symbolic execution of the Go SSA of /repo (gosym + z3 5.1.0), native replay of counter-examples"
 CHECKS = {
  "C01": ("the real HarfbuzzShaper.Shape (AddRunes, clamping, countClusters, sideways, RecalculateAll) executed symbolically over all run bounds, directions and contract-conforming HarfBuzz results within the text-length bound; the solver decides totality, the reported range and the cluster accounting",
-         "only the anchored mechanisms in package shaping are decided; the font-driven interior of HarfBuzz (GSUB/GPOS/morx, normalisation, budgets) is replaced by its contract and is outside the claim"),
+         "the anchored mechanisms in package shaping, the buffer primitives (merge/sort/delete of clusters) and the nesting guard of contextual lookups (otApplyContext.recurse and a self-referencing lookup through the real dispatchApply) are decided; the rest of the font-driven interior of HarfBuzz (GSUB/GPOS/morx application, normalisation, operation budgets) is replaced by its contract and is outside the claim"),
  "C02": ("the real LineWrapper.WrapParagraph (with the real segmenter, cutRun, fillUntil, processBreakOption, postProcessLine) on every bounded paragraph: texts case-split, run layouts case-split, advances/widths/policies/truncation settings symbolic; the solver decides conservation of runes and glyphs, contiguity, advance sums for all those values",
          "paragraph length, alphabet and run count bounded as stated per tier; input runs assumed to satisfy what Shape guarantees; custom RunIterators, word/letter spacing and WrapNextLine with varying widths not covered"),
  "C03": ("same harness as C02: every line end is checked against the break opportunities of the real segmenter, the shaped cluster boundaries and the break policy, and mandatory breaks must end their line",
@@ -36,8 +36,8 @@ CHECKS = {
          "first two sentences of the property at the level of the binary format: the gzip layer, file I/O and the incremental refresh over file-system histories (os.ReadDir/Stat) are outside the claim; totality on fully arbitrary bytes is bounded by the stated lengths, deeper stages are reached with the count fields case-split"),
  "C17": ("write-set confinement, a schedule-independent sufficient condition for the absence of data races: a real variable font is parsed by the real loader inside the interpreter, every object existing afterwards (the shared Font, all package-level variables and tables) is frozen, and the per-goroutine API (NewFace, SetPpem/SetVariations/SetCoords, NominalGlyph, advances, extents incl. the per-face cache, outlines, names, metrics) runs with symbolic rune and glyph id: the solver decides that no reachable store targets a frozen object",
          "interleavings themselves are not explored and 'same results as running alone' follows only from confinement; one TrueType/gvar/HVAR font; shaping (harfbuzz), fontscan.FontMap and CFF/bitmap fonts are outside the claim; a frozen-write counter-example has no native symptom and is reported when its input replays natively along a complete path"),
- "C18": ("the real propagateFlags and unsafeToBreak/setGlyphFlags/infosSetGlyphFlags on arbitrary buffers (symbolic masks, monotone clusters, buffer flags, cluster levels): flag uniformity inside clusters and exact flag placement decided for all buffers within the glyph-count bound",
-         "second sentence of the property only (flag uniformity and its flag-setting kernel); the cut-and-reshape law needs the real shaper on real fonts and is outside the claim"),
+ "C18": ("the real propagateFlags and unsafeToBreak/setGlyphFlags/infosSetGlyphFlags on arbitrary buffers (symbolic masks, monotone clusters, buffer flags, cluster levels): flag uniformity inside clusters and exact flag placement decided for all buffers within the glyph-count bound; and the cut law for ONE application of a GPOS lookup (real dispatchApply, skipping iterator, context matching with nested lookups, pair/cursive/mark attachment) on symbolic buffers: applying the lookup to the piece on one side of an unflagged cluster boundary positions that piece as on the whole buffer",
+         "flag uniformity and the flag-setting kernel are decided for arbitrary buffers; the cut law is decided per lookup application for nine small concrete GPOS lookups on symbolic buffers (H-C18-step-gpos); GSUB applications (out-buffer, ligatures), the complex shapers, kern/morx and the whole-text cut-and-reshape on real fonts are outside the claim"),
  "C19": ("bounded symbolic execution of the real WriteTTF/checksum/writeTTFHeader and NewLoader/Tables/RawTable; an SMT solver decides every assertion for all table contents, tags and spare-capacity bytes within the table-count/length bound",
          "table count and lengths bounded"),
  "C20": ("single symbolic code point (all 2^32 rune values) through the real Lookup*/Compose/Decompose/LookupMirrorChar/LookupScript code and the real generated tables; all 256 Direction values; all byte strings up to the bound for NewLanguage; binarySearchLang over every small sorted table",
